@@ -55,7 +55,7 @@ def library(draw):
     fi = vi = ci = 0
     k = draw(st.integers(2, 7))
     for _ in range(k):
-        kind = draw(st.sampled_from(["func", "func", "var", "var", "class", "dup", "func_uses"]))
+        kind = draw(st.sampled_from(["func", "func", "var", "var", "class", "dup", "func_uses", "func_selfnamed"]))
         c = draw(st.integers(2, 9))
         if kind == "func" and fi < len(fn):
             name = fn[fi]; fi += 1
@@ -63,6 +63,11 @@ def library(draw):
                                          f"    if x > {c}:\n        return x\n    return {c}\n"]))
             parts.append(f"def {name}(x):\n{body}")
             defs.append({"kind": "func", "name": name, "owner": None, "use": "{A}" + name + "(3)"})
+        elif kind == "func_selfnamed" and fi < len(fn):
+            # the library mentions the function's own name as an attribute of something else (a delegating wrapper)
+            name = fn[fi]; fi += 1
+            parts.append(f"def {name}(x, other=None):\n    if other is not None:\n        return other.{name}(x)\n    return x + {c}\n")
+            defs.append({"kind": "func", "name": name, "owner": None, "use": "{A}" + name + "(6)"})
         elif kind == "dup" and fi + 1 < len(fn):
             a, b = fn[fi], fn[fi + 1]; fi += 2
             body = f"    z = x + {c}\n    return z * 2\n"
@@ -190,7 +195,7 @@ def case_strategy(draw):
         preserve.add("v")  # the client reads <class>().v: every attribute name the client accesses is a preserved name
     preserve = sorted(preserve)
     mode = draw(st.sampled_from(["api", "api", "api2", "cli", "cli", "stdin", "cli_dir"]))
-    return {"lib": lib, "client": client, "preserve": preserve, "mode": mode,
+    return {"lib": lib, "client": client, "preserve": preserve, "mode": mode, "preserve_all": draw(st.booleans()),
             "wanted": [[d["owner"], d["name"], d["kind"]] for d in chosen_top + chosen_members]}
 
 
@@ -277,7 +282,7 @@ def rewrite(case):
 
             def go_dir(_):
                 with contextlib.redirect_stdout(io.StringIO()), contextlib.redirect_stderr(io.StringIO()):
-                    main.main([os.path.join(d, "pkg"), "--preserve", os.path.join(d, "clients"), "--n_cores", "2"])
+                    main.main([os.path.join(d, "pkg"), "--preserve", d if case.get("preserve_all") else os.path.join(d, "clients"), "--n_cores", "2"])
                 with open(os.path.join(d, "pkg", "lib.py")) as fh:
                     return fh.read()
 
@@ -378,7 +383,7 @@ def run_shard(spec):
         info = {}
         fails = evaluate(case, info)
         nontrivial = bool(info.get("changed")) and bool(info.get("lost_unpreserved"))
-        classes = [f"mode:{case['mode']}", "changed" if info.get("changed") else "unchanged"]
+        classes = [f"mode:{case['mode']}" + ("+whole-tree-preserved" if case["mode"] == "cli_dir" and case.get("preserve_all") else ""), "changed" if info.get("changed") else "unchanged"]
         classes += sorted({f"uses:{k}" for _, _, k in case["wanted"]})
         if info.get("lost_unpreserved"):
             classes.append("unpreserved-definition-deleted-or-renamed")
